@@ -514,6 +514,16 @@ LY_ERR _lys_set_implemented(struct lys_module *mod, const char **features, struc
 LY_ERR lys_unres_dep_sets_create(struct ly_ctx *ctx, struct ly_set *main_set, struct lys_module *mod);
 
 /**
+ * @brief Remember the current feature states of a module in the global compile context before they are changed,
+ * ::lys_unres_glob_revert() restores them.
+ *
+ * @param[in] mod Module whose features are going to be set.
+ * @param[in,out] unres Global unres to use.
+ * @return LY_ERR value.
+ */
+LY_ERR lys_unres_feat_backup(struct lys_module *mod, struct lys_glob_unres *unres);
+
+/**
  * @brief Revert changes stored in global compile context after a failed compilation.
  *
  * @param[in] ctx libyang context.
